@@ -201,8 +201,8 @@ def first_jobs(rng):
         e0, e1 = cpr.encode(lat, lon, 0), cpr.encode(lat, lon, 1)
         if cpr.near_transition(e0["rlat"], 1e-6) or cpr.near_transition(e1["rlat"], 1e-6) or cpr.NL(e0["rlat"]) != cpr.NL(e1["rlat"]):
             continue
-        f0 = frames.tohex(frames.df17(rng.getrandbits(24), cpr.me_airborne(11, 0, e0["yz"], e0["xz"], rng.getrandbits(12), 0, 0, 0)), 112, "U")
-        f1 = frames.tohex(frames.df17(rng.getrandbits(24), cpr.me_airborne(11, 1, e1["yz"], e1["xz"], rng.getrandbits(12), 0, 0, 0)), 112, "U")
+        f0 = frames.tohex(frames.df17(gen.addr24(rng), cpr.me_airborne(11, 0, e0["yz"], e0["xz"], rng.getrandbits(12), 0, 0, 0)), 112, "U")
+        f1 = frames.tohex(frames.df17(gen.addr24(rng), cpr.me_airborne(11, 1, e1["yz"], e1["xz"], rng.getrandbits(12), 0, 0, 0)), 112, "U")
 
         def judge(got, e1=e1, f0=f0, f1=f1):
             try:
